@@ -19,3 +19,9 @@ import "net"
 // simListen, when non-nil, replaces the listen socket.  It is only ever set by
 // builds with the "verif" tag (simulation harnesses); it is nil otherwise.
 var simListen func(addr string) net.Listener
+
+// simYield, when non-nil, is called at a few points where another goroutine's
+// progress can matter (between reading a breadcrumb and acting on it).  It is
+// only ever set by builds with the "verif" tag (simulation harnesses), which use
+// it to decide the interleaving; it is nil otherwise.
+var simYield func(point string)
